@@ -2414,7 +2414,8 @@ bool Parser::parseBraceEnclosedInitializer_AtFirst(InitializerSyntax*& init)
 
     if (!parseInitializerList(braceInit->initList_)) {
         skipTo(SyntaxKind::CloseBraceToken);
-        consume();
+        if (peek().kind() == SyntaxKind::CloseBraceToken)
+            consume();
         return false;
     }
 
